@@ -346,7 +346,11 @@ func (m *Model) RunResponse(s *Sink, rule string) {
 		return
 	}
 	okDebug := false
-	for _, b := range ep.Blocks {
+	var epBlocks []*ssa.BasicBlock
+	for _, h := range m.helpersOf(ep) { // errorPage and the private helpers its body is split into (the data map may be built by one)
+		epBlocks = append(epBlocks, h.Blocks...)
+	}
+	for _, b := range epBlocks {
 		for _, in := range b.Instrs {
 			mu, ok := in.(*ssa.MapUpdate)
 			if !ok {
